@@ -903,10 +903,20 @@ def rule_bounded_loop(ctx, rid, gni, limit='max_iters', exc='emd.support.EMDSift
         c_guard = 'stop_method=%s: limit guard passed before every increment, raising the convergence error' % sm
         raises = [e for e in exits if e.kind == 'raise' and e.value[0] == 'call' and e.value[1] == exc]
         ok_raise = False
+
+        def counter_term(t):
+            # the counter itself, or the counter shifted by a constant (`completed = niters - 1`): the guard
+            # `counter + k > limit` bounds the loop just as well
+            for n_ in counters:
+                h = summ.head_env.get(n_)
+                if h is None:
+                    continue
+                if t == h or (alg.poly(t) - alg.poly(h)).is_const():
+                    return True
+            return False
         for e in raises:
             for c, truth, ln in e.state.conds:
-                if truth and c[0] == 'cmp' and c[1] in ('>', '>=') and c[3] == S(limit) \
-                        and any(c[2] == summ.head_env.get(n) for n in counters):
+                if truth and c[0] == 'cmp' and c[1] in ('>', '>=') and c[3] == S(limit) and counter_term(c[2]):
                     ok_raise = True
         if not ok_raise:
             ctx.violation(rid, gni, c_guard, 'no path raises the convergence error when the counter exceeds max_iters',
@@ -921,7 +931,7 @@ def rule_bounded_loop(ctx, rid, gni, limit='max_iters', exc='emd.support.EMDSift
             for c, truth, ln in b.conds:
                 if c[0] != 'cmp':
                     continue
-                is_counter = any(c[2] == summ.head_env.get(n) for n in counters)
+                is_counter = counter_term(c[2])
                 if is_counter and c[1] in ('>', '>=') and c[3] == S(limit) and truth is False:
                     passed = True
                 if is_counter and c[1] == '==' and truth is True and _floor_fraction_of(c[3], S(limit)):
